@@ -69,16 +69,24 @@ LOOP16_SUBGRAPH_SOLUTION = {
     "body": "typing_cast(List[Type], [Tensor(np.int64, (1,)), Tensor(np.bool_, (1,))])"
     "+ [var.unwrap_type() for var in v_initial]"
 }
+# Scan: the first ``len - num_scan_inputs`` operands are state variables and keep their type,
+# the remaining ``num_scan_inputs`` operands are scanned and lose their scan axis (default 0).
 SCAN16_SUBGRAPH_SOLUTION = {
-    "body": "[Tensor(var.unwrap_tensor().dtype, "
-    "   (lambda x: x[1:] if x is not None else None)(var.unwrap_tensor().shape)) "
-    "for var in initial_state_and_scan_inputs[:num_scan_inputs]] + "
-    "[Tensor(var.unwrap_tensor().dtype) "
-    "for var in initial_state_and_scan_inputs[num_scan_inputs:]]"
+    "body": "(lambda operands, axes: "
+    "[var.unwrap_type() for var in operands[: len(operands) - num_scan_inputs]] + "
+    "[Tensor(var.unwrap_tensor().dtype, "
+    "   (lambda x, a: x[: a % len(x)] + x[a % len(x) + 1 :] if x else None)"
+    "(var.unwrap_tensor().shape, axis)) "
+    "for var, axis in zip(operands[len(operands) - num_scan_inputs :], axes)])"
+    "(initial_state_and_scan_inputs, "
+    "(scan_input_axes := tuple(scan_input_axes)) if scan_input_axes is not None "
+    "else (0,) * num_scan_inputs)"
 }
+# SequenceMap: sequence operands give their element type, tensor operands are passed through.
 SEQUENCEMAP17_SUBGRAPH_SOLUTION = {
     "body": "[typing_cast(SpoxSequence, input_sequence.unwrap_type()).elem_type] + "
-    "[typing_cast(SpoxSequence, var.unwrap_type()).elem_type for var in additional_inputs]"
+    "[var.unwrap_sequence().elem_type if isinstance(var.unwrap_type(), SpoxSequence) "
+    "else var.unwrap_type() for var in additional_inputs]"
 }
 
 V16_OUT_VARIADIC_SOLUTIONS = {
